@@ -12,38 +12,40 @@ PROP_ORACLES = {
     'C01': ['tree.memory', 'tree.altroot', 'tree.overlay', 'tree.physical', 'union.overlay'],
     'C03': ['tree.memory', 'tree.altroot', 'tree.overlay', 'union.overlay'],
     'C04': ['reader', 'writer', 'tree.memory', 'tree.physical', 'union.overlay', 'transfer', 'handles'],
-    'C05': ['tree.memory', 'tree.altroot', 'tree.overlay', 'tree.physical', 'union.overlay', 'hostile.physical'],
+    'C05': ['tree.memory', 'tree.altroot', 'tree.overlay', 'tree.physical', 'union.overlay', 'hostile.physical', 'walk.vanish'],
     'C06': ['paths'],
     'C07': ['tree.altroot', 'composite.altroot', 'tree.physical', 'transfer', 'paths'],
     'C08': ['overlay', 'faults'],
     'C09': ['tree.overlay', 'union.overlay', 'overlay'],
     'C10': ['overlay', 'union.overlay'],
     'C11': ['composite.memory', 'composite.altroot', 'composite.physical', 'transfer', 'copydir'],
-    'C12': ['paths', 'tree.memory', 'tree.altroot'],
+    'C12': ['paths', 'tree.memory', 'tree.altroot', 'walk.vanish'],
     'C13': ['paths', 'reader', 'writer', 'tree.memory', 'tree.altroot', 'tree.overlay', 'tree.physical', 'union.overlay', 'overlay', 'transfer', 'handles', 'hostile.physical', 'times', 'embedded', 'adiff:hostile', 'adiff:reader', 'adiff:schedule', 'adiff:steps.memory'],
     'C14': ['reader', 'writer'],
-    'C15': ['adiff:steps.memory', 'adiff:steps.altroot', 'adiff:steps.overlay', 'adiff:steps.physical', 'adiff:reader', 'adiff:schedule', 'adiff:hostile'],
+    'C15': ['adiff:steps.memory', 'adiff:steps.altroot', 'adiff:steps.overlay', 'adiff:steps.physical', 'adiff:reader', 'adiff:schedule', 'adiff:hostile', 'adiff:transfer'],
     'C18': ['embedded'],
     'C19': ['times'],
-    'C20': ['faults', 'composite.memory', 'transfer', 'copydir'],
+    'C20': ['faults', 'composite.memory', 'transfer', 'copydir', 'walk.vanish'],
 }
 BOUNDS = {
     'paths': 'all join arguments over {/ . a é blank} up to length 5 (deep: 6) x 5 bases, plus parent/filename/extension/root of every result; equality of paths within and across filesystem instances',
     'reader': 'contents of length 0,1,3 x all scripts of 2 (deep: 3) read/seek calls from 17 operations incl. extreme offsets',
     'writer': 'create/append sessions x all scripts of 3 (deep: 4) write/seek/flush calls from 9 operations',
-    'tree.memory': 'all sequences of 2 (deep: 3) operations (5 primitives plus move_file / copy_file to a fixed destination) over the 12-path universe (incl. prefix siblings a/ab/a.b, a directory nested in one of the same name a/a, a multi-byte directory with a child, a dot-file, a name containing a backslash) on MemoryFS, every observation compared with the abstract tree after every step',
+    'tree.memory': 'all sequences of 2 (deep: 3) operations (5 primitives plus move_file / copy_file to a fixed destination) over the 14-path universe (incl. prefix siblings a/ab/a.b with a child below ab, a name that starts with the own directory name of the altroot, a directory nested in one of the same name a/a, a multi-byte directory with a child, a dot-file, a name containing a backslash) on MemoryFS, every observation (incl. walk_dir from the root: every entry once, directories first) compared with the abstract tree after every step',
     'tree.altroot': 'same sequences on AltrootFS over MemoryFS rooted at /r, plus: nothing outside /r changes',
     'tree.overlay': 'same sequences (length 2) on OverlayFS over two MemoryFS layers with an empty lower layer',
     'composite.memory': 'sequences of 2 operations incl. create_dir_all / remove_dir_all on MemoryFS',
     'composite.altroot': 'sequences of 2 operations incl. create_dir_all / remove_dir_all on AltrootFS',
     'tree.physical': 'same sequences (length 2) on PhysicalFS over a fresh temporary directory, plus: nothing next to the root directory changes',
     'composite.physical': 'sequences of 2 operations incl. create_dir_all / remove_dir_all on PhysicalFS',
-    'union.overlay': 'OverlayFS over three layers with pre-populated lower layers (shadowed file, split directory, a nested directory that exists only in the bottom layer, a 20000-byte file in the bottom layer) compared with ONE plain tree initialised to the union, all sequences of 2 (deep: 3) operations outside the input classes of the known findings',
-    'overlay': 'all sequences of 1 (deep: 2) overlay operations (15 kinds incl. move_file / copy_file x 5 paths) over 2 and 3 layers with pre-populated lower layers: lower layers unchanged, observers change nothing, bookkeeping hidden',
+    'union.overlay': 'OverlayFS over three layers with pre-populated lower layers (shadowed file, split directory, a nested directory that exists only in the bottom layer, a 20000-byte file in the bottom layer) compared with ONE plain tree initialised to the union (three start configurations: plain, /f also in the upper layer, /f already removed through the overlay), all sequences of 2 (deep: 3) operations outside the input classes of the known findings',
+    'overlay': 'all sequences of 1 (deep: 2) overlay operations (15 kinds incl. move_file / copy_file x 5 paths) over 2 and 3 layers with pre-populated lower layers and a pre-populated upper layer (an entry and a marker for the same path, a stale marker): lower layers unchanged, observers change nothing, bookkeeping hidden',
     'copydir': 'copy_dir / move_dir of 3 source trees x 3 source directory names (ASCII, multi-byte, below a multi-byte parent) (incl. names repeating the source directory name, empty and nested directories, binary and dot files) x same/other filesystem x existing destination: structure, bytes and returned count',
     'faults': '12 scenarios (incl. re-creating a removed file / directory through an overlay with a faulty upper layer) (create_dir_all, remove_dir_all, copy/move_file, copy/move_dir, walk_dir, read_to_string, altroot, overlay with faulty upper / faulty lower layer) x every position k of a failing underlying call: never Ok with a partial or wrong effect, never a panic, lower layers untouched',
     'embedded': 'EmbeddedFS over the fixture folder replay/embed (nested, dotted, multi-byte, prefix-sharing names, an empty file) against PhysicalFS on the same folder: for every embedded file and implied directory, the root, and for each an extension, a prefix, a sibling and a path below it (65 paths): existence, type, length, bytes, listings, walk; every mutating call is refused as not-supported; nothing changes',
     'times': 'set_creation/modification/access_time: 3 fields x 3 fields (ordered pairs) x 7 instants (epoch, sub-second, before the epoch, far future) on a file, a directory and the root, on memory, altroot, overlay (upper-layer entries), physical and altroot over physical; plus append sessions (creation time kept, also when set while the handle is open)',
+    'walk.vanish': 'entries removed while a walk is under way (2 and 4 files; memory, altroot, overlay): one not-found error item per vanished entry, naming it, then the end',
+    'adiff:transfer': 'copy_file / move_file from a memory / altroot / physical source to another in-memory filesystem, with and without an existing destination: async against sync',
     'handles': '6 scenarios of read / write handles that outlive their file (removed, ancestor removed, re-created) on memory, altroot, overlay: no panic, filesystem usable afterwards',
     'hostile.physical': '14 operations on every entry of a directory holding a dangling symlink, symlinks to a directory and to a file and a non-UTF-8 name: no panic; metadata type agrees with listability',
     'adiff:steps.memory': 'differential, sync MemoryFS vs AsyncMemoryFS: all sequences of 2 (deep: 3) operations (11 kinds incl. move/copy file, copy/move dir x 8 paths) from the empty and from a populated tree; after every step the result class and every observation (exists, metadata type/len, is_file/is_dir, listing, bytes, text, walk) of every path must agree',
@@ -100,9 +102,11 @@ def run(names, deep=False, timeout=None):
                             'detail': 'the oracle process was killed by signal %d while running %s: a panic of the library escaped every handler (panic inside Drop / while unwinding)' % (-p.returncode, n)})
             elif not lines:
                 res.append({'check': n, 'status': 'ERROR', 'detail': 'no verdict line (exit %d)' % p.returncode})
+            traces = [l.split() for l in p.stdout.decode('utf-8', 'replace').split('\n') if l.startswith('TRACE ')]
+            trace = traces[-1][2] if traces and len(traces[-1]) >= 3 else None
             for l in lines:
                 st, _, rest = l.partition(' ')
-                res.append({'check': n, 'status': st, 'detail': rest, 'bound': BOUNDS.get(n, ''), 'cmd': ' '.join(cmd)})
+                res.append({'check': n, 'status': st, 'detail': rest, 'bound': BOUNDS.get(n, ''), 'cmd': ' '.join(cmd), 'trace': trace, 'deep': deep})
         except subprocess.TimeoutExpired:
             res.append({'check': n, 'status': 'ERROR', 'detail': 'timeout'})
         return res
@@ -111,3 +115,37 @@ def run(names, deep=False, timeout=None):
     with cf.ThreadPoolExecutor(max_workers=6) as ex:
         out = [x for res in ex.map(one, names) for x in res]
     return True, out
+
+
+TRACES = os.path.join(VERIF, 'units', 'oracles.trace.json')
+
+
+def record_traces():
+    """run every oracle in the quick bounds on the pinned tree and record its behaviour digest (./check ALL --record)"""
+    import json
+    names = sorted(set(n for v in PROP_ORACLES.values() for n in v))
+    ok, res = run(names, deep=False)
+    out = {r['check']: r.get('trace') for r in res if r['status'] == 'PASS' and r.get('trace')}
+    json.dump(out, open(TRACES, 'w'), indent=1, sort_keys=True)
+    return out, [r for r in res if r['status'] != 'PASS']
+
+
+def behaviour_changed(pid, results):
+    """compare the behaviour digests of the property's oracles (quick bounds) with the pinned ones.
+    returns (True, [names that differ]) / (False, [names compared]) / (None, reason) when no comparison is possible"""
+    import json
+    names = PROP_ORACLES.get(pid) or []
+    if not names or not os.path.exists(TRACES):
+        return None, 'no oracle / no recorded digests for this property'
+    pinned = json.load(open(TRACES))
+    quick = [r for r in results if not r.get('deep')]
+    if len(set(r['check'] for r in quick)) < len(names):
+        ok, quick = run(names, deep=False)
+        if not ok:
+            return None, 'oracle crate does not build'
+    differ, same = [], []
+    for r in quick:
+        if r['status'] != 'PASS' or not r.get('trace') or r['check'] not in pinned:
+            return None, 'oracle %s gave no digest (%s)' % (r['check'], r['status'])
+        (same if r['trace'] == pinned[r['check']] else differ).append(r['check'])
+    return (True, differ) if differ else (False, same)
